@@ -23,7 +23,7 @@ func init() {
 			"replace_double_quotes wrappers, target filters, failing records); EVERY byte offset k in [0,len] is a fault point, each with three fault kinds " +
 			"(persistent; fail once, deliver a few more bytes, then fail forever; data returned together with the error). After the fault has been handed to " +
 			"the library a non-continuable, non-EOF error must surface within R+2 Reads (R = records of the fault-free run), must be sticky, and every " +
-			"earlier result except possibly the last must equal the fault-free transcript. distinct = (input, offset, kind) runs in which the fault was " +
+			"earlier result except possibly the last must equal the fault-free transcript. Fault kinds: persistent; fail once, a few more bytes, then persistent; data together with the error, then persistent; data together with the error once, more bytes, then persistent. distinct = (input, offset, kind) runs in which the fault was " +
 			"actually consumed; non-trivial = fault consumed inside the data (not before the first byte).",
 		Assumptions: []string{
 			"the fault reader fails with a plain errors.New value that is neither io.EOF nor io.ErrUnexpectedEOF",
